@@ -476,9 +476,10 @@ def gen_conversion_case(rng):
     return case
 
 def gen_tree(rng, depth, mkrx, rxns):
-    """nested structure: ['set', kind, [indices]] or ['sys', [children]]"""
-    if depth == 0 or rng.random() < 0.45:
-        k = rng.choice(['single', 'single', 'parallel', 'series']); n = 1 if k == 'single' else rng.randint(1, 2)
+    """nested structure: ['set', kind, [indices]] or ['sys', [children]]; at most 5 reactions in all (the exact rationals of
+    the model grow with every reaction applied in sequence)"""
+    if depth == 0 or rng.random() < 0.45 or len(rxns) >= 3:
+        k = rng.choice(['single', 'single', 'parallel', 'series']); n = 1 if (k == 'single' or len(rxns) >= 4) else rng.randint(1, 2)
         idx = list(range(len(rxns), len(rxns) + n)); rxns += [mkrx() for _ in range(n)]
         return ['set', k, idx]
     return ['sys', [gen_tree(rng, depth - 1, mkrx, rxns) for _ in range(rng.randint(1, 3))]]
@@ -496,7 +497,7 @@ def gen_nested_case(rng):
     phases = rng.choice([[], [], ['g', 'l']])
     basis = rng.choice(['mol', 'mol', 'wt'])
     rxns = []
-    tree = ['sys', [gen_tree(rng, 2, lambda: gen_rxn(rng, phases, basis), rxns) for _ in range(rng.randint(1, 3))]]
+    tree = ['sys', [gen_tree(rng, 2, lambda: gen_rxn(rng, phases, basis), rxns) for _ in range(rng.randint(1, 2))]]
     if not any(c[0] == 'sys' for c in tree[1]):
         tree[1].append(['sys', [gen_tree(rng, 1, lambda: gen_rxn(rng, phases, basis), rxns)]])
     case = {'phases': phases, 'kind': 'system', 'rxns': rxns, 'tree': tree, 'parts': tree_parts(tree)}
@@ -864,7 +865,7 @@ def run_impl(case):
             ret = None
             if case['kind'] == 'single': cv = obj.conversion(mat)
             else: cv = obj._conversion(mat)
-            out['conv'] = [fr_json(frac(x)) for x in np.asarray(cv.to_array(), float).reshape(-1)]
+            out['conv'] = [fr_json(frac(x)) for x in np.asarray(cv.to_array() if hasattr(cv, 'to_array') else cv, float).reshape(-1)]
         else:
             ret = obj(mat)
         assert ret is None
@@ -1275,7 +1276,7 @@ def oracle_conversion(case):
     else:
         q1 = apply_ref(case, rs, q0)
     want = [float(a - b) for a, b in zip(q1, q0)]
-    got = [float(x) for x in np.asarray(cv.to_array(), float).reshape(-1)]
+    got = [float(x) for x in np.asarray(cv.to_array() if hasattr(cv, 'to_array') else cv, float).reshape(-1)]
     scale = max([1.0] + [abs(float(x)) for x in q0])
     if len(got) != len(want) or any(abs(g - w_) > 1e-9 * scale for g, w_ in zip(got, want)):
         return f'conversion: returned {got}, X x feed x coefficients is {want}'
